@@ -301,7 +301,12 @@ bool AnalyserInternalEquation::variableOnLhsRhs(const AnalyserInternalVariablePt
 {
     switch (astChild->type()) {
     case AnalyserEquationAst::Type::CI:
-        return astChild->variable()->name() == variable->mVariable->name();
+        // Note: what an equation computes for a state is its rate, so a state
+        //       on its own is not the unknown of the equation (e.g., the RHS of
+        //       dx/dt = x).
+
+        return (variable->mType != AnalyserInternalVariable::Type::STATE)
+               && (astChild->variable()->name() == variable->mVariable->name());
     case AnalyserEquationAst::Type::DIFF:
         return astChild->rightChild()->variable()->name() == variable->mVariable->name();
     default:
